@@ -36,14 +36,22 @@ FORBIDDEN_RE = re.compile(r"\b(sorry|admit|native_decide|bv_decide|implemented_b
 # --------------------------------------------------------------------------------------
 
 class LeanLock:
+    """exclusive lock on the Lean workspace (regeneration + build + audit); re-entrant within a process"""
+    depth = 0
+    f = None
+
     def __enter__(self):
-        self.f = open(LEAN / ".lock", "w")
-        fcntl.flock(self.f, fcntl.LOCK_EX)
+        if LeanLock.depth == 0:
+            LeanLock.f = open(LEAN / ".lock", "w")
+            fcntl.flock(LeanLock.f, fcntl.LOCK_EX)
+        LeanLock.depth += 1
         return self
 
     def __exit__(self, *a):
-        fcntl.flock(self.f, fcntl.LOCK_UN)
-        self.f.close()
+        LeanLock.depth -= 1
+        if LeanLock.depth == 0:
+            fcntl.flock(LeanLock.f, fcntl.LOCK_UN)
+            LeanLock.f.close()
 
 
 def lake_build(targets: List[str], timeout: int = 1500) -> Tuple[bool, str]:
@@ -307,22 +315,22 @@ def run_check(prop: Prop, tier: str, seed: int, replay: Optional[str] = None) ->
     notes: List[str] = []
     # 1 regenerate ------------------------------------------------------------------------
     from .translate import regen as regen_mod
-    with LeanLock():
+    with LeanLock():   # regenerate + build + audit as one critical section
         status = regen_mod.regen(prop.gen_names or None) if prop.gen_names else {}
-    gen_failed = {k: v for k, v in status.items() if v != "ok"}
+        gen_failed = {k: v for k, v in status.items() if v != "ok"}
 
-    # 2 build + audit -----------------------------------------------------------------------
-    build_ok, build_log = lake_build(prop.lean_targets + ["Cel.Drv." + pid]) if prop.lean_targets else (True, "")
-    obligations: Dict[str, List[str]] = {}
-    audit_err = ""
-    bad_axioms: Dict[str, List[str]] = {}
-    forbidden: List[str] = []
-    if build_ok and prop.lean_targets:
-        obligations, audit_err = audit(prop.lean_targets, prop.audit_namespaces)
-        bad_axioms = {n: [a for a in axs if a not in ALLOWED_AXIOMS] for n, axs in obligations.items()}
-        bad_axioms = {n: a for n, a in bad_axioms.items() if a}
-        mods = module_closure(prop.lean_targets)
-        forbidden = grep_forbidden([module_file(m) for m in mods])
+        # 2 build + audit -------------------------------------------------------------------
+        build_ok, build_log = lake_build(prop.lean_targets + ["Cel.Drv." + pid]) if prop.lean_targets else (True, "")
+        obligations: Dict[str, List[str]] = {}
+        audit_err = ""
+        bad_axioms: Dict[str, List[str]] = {}
+        forbidden: List[str] = []
+        if build_ok and prop.lean_targets:
+            obligations, audit_err = audit(prop.lean_targets, prop.audit_namespaces)
+            bad_axioms = {n: [a for a in axs if a not in ALLOWED_AXIOMS] for n, axs in obligations.items()}
+            bad_axioms = {n: a for n, a in bad_axioms.items() if a}
+            mods = module_closure(prop.lean_targets)
+            forbidden = grep_forbidden([module_file(m) for m in mods])
     proof_ok = build_ok and not gen_failed and not bad_axioms and not forbidden and bool(obligations or not prop.lean_targets)
     broken: List[str] = []
     if gen_failed:
